@@ -53,6 +53,10 @@ def observe(s):
         enc = "unencodable"
     (k, g), _ = SR.generate(s, SR.make_policy("lo", None))
     gen = safe_repr(g) if k == "ok" else type(g).__name__
+    # through the PUBLIC generator (the module-level one every ~schema / fake() shares), with the largest answers: caps and
+    # defaults it keeps between calls show up in the ranges it asks for
+    (k2, g2), log2 = SR.generate_public(s, SR.make_policy("hi", None))
+    gen += " | " + (safe_repr(g2)[:400] if k2 == "ok" else type(g2).__name__) + " | %d draws" % len(log2)
     return (text, tuple(verdicts), enc, gen, declared)
 
 
@@ -524,6 +528,34 @@ def directed_option_purity(ctx):
                               schema=safe_repr(mk()), value=safe_repr(v), first=base[:3], second=again[:3])
 
 
+def directed_generator_state(ctx):
+    """generating from one schema must not change what ANOTHER schema generates: demanding schemas (repeats / lengths far above
+    the defaults, huge bounds, long alphabets) faked through the public generator between two observations of ordinary ones"""
+    ordinary = [lambda: schema.str.regex("a*"), lambda: schema.str.regex(r"\d+x?"), lambda: schema.str, lambda: schema.list(schema.int),
+                lambda: schema.str.alphabet("ab"), lambda: schema.float.precision(3), lambda: schema.int, lambda: schema.bytes]
+    demanding = [lambda: schema.str.regex(r"[0-9]{64,}"), lambda: schema.str.regex(r"(ab){40,}z*"), lambda: schema.str.len(200, ...),
+                 lambda: schema.list(schema.int).len(150, ...), lambda: schema.int.min(2 ** 80), lambda: schema.float.min(1e300),
+                 lambda: schema.float.min(0.5).max(2.5).precision(1), lambda: schema.str.contains("q" * 90),
+                 lambda: schema.str.alphabet("z" * 50).len(70)]
+    for mk_d in demanding:
+        try:
+            before = [observe(mk()) for mk in ordinary]
+            d = mk_d()
+            for pol in ("hi", "lo"):
+                SR.generate_public(d, SR.make_policy(pol, None))
+            fake(d)
+            after = [observe(mk()) for mk in ordinary]
+        except Exception as e:  # noqa: BLE001
+            ctx.count("generator_state_harness_error:" + type(e).__name__)
+            continue
+        ctx.count("generator_state_sequences")
+        for mk, b, a in zip(ordinary, before, after):
+            if a != b:
+                ctx.violation("generating from one schema changed what another schema generates", generated_from=safe_repr(mk_d()),
+                              affected=safe_repr(mk()), before=b[3][:300], after=a[3][:300])
+                return
+
+
 def directed_fault_then_repeat(ctx):
     """an operation that succeeds; the same operation failing half-way on the SAME (temporarily broken) container object;
     the container repaired in place; the first operation repeated — results must agree (anything remembered about the
@@ -668,6 +700,7 @@ def run(ctx):
     order_independence(ctx)
     directed_fault_then_repeat(ctx)
     directed_option_purity(ctx)
+    directed_generator_state(ctx)
     steps = ctx.n(30, 100)
     for h in range(ctx.n(25, 80)):
         H = History(ctx)
